@@ -680,6 +680,14 @@ def record_side(ctx, quick):
                         bad_line = ("record-spans-lines", "field %s: record %r" % (field, ln))
                     elif clean_text(LW.fmt) and not clean_text(ln):
                         bad_line = ("control-character-in-record", "field %s: record %r" % (field, ln))
+                    else:
+                        # the record has to survive the handler's stream: text that no stream encoding accepts (lone
+                        # surrogates) makes logging drop the record (Handler.handleError) - no record at all
+                        try:
+                            ln.encode("utf-8")
+                        except UnicodeEncodeError as e:
+                            bad_line = ("record-not-writable", "field %s: the record %r cannot be written to a log stream (%s): the "
+                                        "logging handler drops it" % (field, ln, e.reason))
                 if nlines % 997 == 0 and lines:
                     ctx.sample({"side": "record", "worker": kind, "field": field, "request": data.decode("latin-1")[:80], "record": lines[0][:160]})
                 if bad_line:
